@@ -13,7 +13,7 @@ import re
 import lib
 import core
 import progast as P
-from pass_constants import snapshot_pair, flat_term
+from pass_constants import snapshot_pair, flat_term, ensure_built
 
 HEADER = ("From Coq Require Import List String QArith Qcanon ZArith.\n"
           "From Polar Require Import Qcx Dist Syntax Sem Types Poly PassCNBase PassConstants PassCondNorm PassCNMatch Search.\n"
@@ -36,7 +36,7 @@ def has_nontrivial_atom(d):
 def run_pass(ctx, runs):
     import time
     t0 = time.time()
-    ok, log = lib.coq_make(["theories/PassCNMatch.vo"])
+    ok, log = ensure_built("theories/PassCNMatch.vo", ["theories/PassConstants.vo", "theories/PassCondNorm.vo", "theories/PassDist.vo"])
     cov = ctx.coverage.setdefault("pass_models", {})
     st = {"instances": 0, "in_model": 0, "model_equals_polar": 0, "outside_model_abstraction_or_unreduced": 0,
           "hypothesis_check_types": 0, "hypothesis_false": 0, "inequality_atoms_rewritten": 0, "not_modelled": 0, "coq_failed": 0}
